@@ -245,6 +245,9 @@ impl<'a, T> ChordsV2<'a, T> {
     fn drain_inputs(&mut self, drainq: &mut SmolQueue, active_layer: u16) {
         if self.ticks_to_ignore_chord > 0 {
             drainq.extend(self.queue.drain(0..));
+            // The fast-path state of an earlier chord attempt must not outlive the drained queue:
+            // left stale, it delays the first inputs after the min-idle window by its timeout.
+            self.ticks_until_next_state_change = 0;
             return;
         }
         if self.ticks_until_next_state_change > 0
